@@ -250,3 +250,46 @@ def _ws_coroutine_of(ctx, callexpr):
             if k in ctx.prog.lib_bodies:
                 return k
     return None
+
+
+def _helper_return(prog, name):
+    """return expression of a small synchronous workspace fn identified by its pretty name (cached)"""
+    cache = getattr(prog, "_helper_ret", None)
+    if cache is None:
+        cache = prog._helper_ret = {}
+    if name in cache:
+        return cache[name]
+    idx = getattr(prog, "_name_index2", None)
+    if idx is None:
+        idx = prog._name_index2 = {}
+        for k, b in prog.lib_bodies.items():
+            idx.setdefault(b.name, b)
+    b = idx.get(name)
+    cache[name] = None
+    if b is None or b.kind not in ("Fn", "AssocFn") or b.coroutine or len(b.blocks) > 60:
+        return None
+    if (b.key + "::{closure#0}") in prog.lib_bodies and prog.lib_bodies[b.key + "::{closure#0}"].coroutine:
+        return None   # async fn
+    an = flow.Analyzer(b, prog)
+    cache[name] = return_expr(an)
+    return cache[name]
+
+
+def deep_calls(prog, e, suffix, depth=3):
+    """like calls_in, but also looks into the bodies of small workspace helper functions called from e
+    (helper extraction must not hide a mechanism). Returns [(call node in e's own body, inner call node)]"""
+    out = []
+    for c in calls_in(e):
+        nm = short(c[2] or c[1])
+        if nm.endswith(suffix) or short(c[1]).endswith(suffix):
+            out.append((c, c))
+            continue
+        if depth > 0:
+            for name in (c[2], c[1]):
+                r = _helper_return(prog, name) if name else None
+                if r is not None:
+                    inner = deep_calls(prog, r, suffix, depth - 1)
+                    if inner:
+                        out.append((c, inner[0][1]))
+                    break
+    return out
